@@ -826,3 +826,11 @@ silent("C09", "harmonic basis shared between grids through a module cache keyed 
         "        key = (self.method, tuple(int(d) for d in self.degrees), self.rotate)\n        if self._basis is None and key in _SHARED_BASIS:\n            self._basis = _SHARED_BASIS[key]\n        if self._basis is None:\n            theta, phi = self.convert_cartesian_to_spherical().T[1:]\n"),
        ("sub", "atomgrid.py", "        # Multiply spherical harmonic basis with the function values to project.\n", "        _SHARED_BASIS[key] = self._basis\n        # Multiply spherical harmonic basis with the function values to project.\n"),
        ("sub", "atomgrid.py", "class AtomGrid(Grid):\n", "_SHARED_BASIS = {}\n\n\nclass AtomGrid(Grid):\n"))
+
+# ------------------------------------------------------------------------------------------ C06 R7 / R8
+fire("C06", "normaliser leaves out the last atom", "R7.partition-of-unity/becke.BeckeWeights.generate_weights",
+     ("sub", "becke.py", "            weights += s_ab[:, select[0]] / np.sum(s_ab, axis=-1)\n", "            weights += s_ab[:, select[0]] / np.sum(s_ab[:, :-1], axis=-1)\n"))
+fire("C06", "per-atom route normalises with its own cell counted twice", "R7.partition-of-unity/becke.BeckeWeights.compute_atom_weight",
+     ("sub", "becke.py", "        weights += s_ab[:, select] / np.sum(s_ab, axis=-1)\n", "        weights += s_ab[:, select] / (np.sum(s_ab, axis=-1) + s_ab[:, select])\n"))
+silent("C06", "cell factor written as a quotient",
+       ("sub", "becke.py", "        s_ab = 0.5 * (1 - BeckeWeights._switch_func(v_pp, order=self._order))\n", "        s_ab = (1 - BeckeWeights._switch_func(v_pp, order=self._order)) / 2\n", 2))
